@@ -5,4 +5,5 @@ import BalmProofs.Props.C02
 #print axioms Balm.SDm.nodes_iff_reachable
 #print axioms Balm.concrete_leaf_iff_minimal
 #print axioms Balm.Props.C04.expandBfs_inv
-#print axioms Balm.Props.C04.init_inv
+#print axioms Balm.Props.C04.expandDfs_inv
+#print axioms Balm.Props.C04.plain_history_inv
